@@ -258,6 +258,41 @@ def gen_merge_case(r, tier, nops=40):
     return {"m": m, "universe": [hx(k) for k in uni], "q": [hx(k) for k in q], "ranges": [[hx(lo), hx(hi)]], "ops": ops, "mode": "merge"}
 
 
+BIG_MS = [127, 128, 253, 254, 255]
+
+
+def gen_big_keys(r, n):
+    """n distinct non-empty keys of 1-3 bytes over the whole byte range, many sharing a prefix"""
+    keys = set()
+    while len(keys) < n:
+        if keys and r.chance(1, 3):
+            k = (r.choice(sorted(keys)[:8] + sorted(keys)[-8:]) + bytes([r.below(256)]))[:3]
+        else:
+            k = bytes(r.below(256) for _ in range(r.choice([1, 2, 2, 2, 3])))
+        if k:
+            keys.add(k)
+    return sorted(keys)
+
+
+def gen_overflow_case(r, m, order=None, extra=None):
+    """a fan-out of up to 255 (tree.m is a uint8): m + extra distinct keys are inserted, so the first level-1 node overflows and
+    splits at m/2+1 (and the root is created); only the last operations are observed (the first m-3 inserts are 'quiet'), then a
+    few updates; every query is asked after each observed operation.  Set-only, so everything is judged strictly."""
+    extra = extra if extra is not None else r.range(2, 6)
+    keys = gen_big_keys(r, m + extra)
+    order = order or r.choice(["mono", "rev", "rand", "alt"])
+    ins = order_keys(r, keys, order)
+    ops = [{"op": r.choice(["set", "set", "inc"]), "k": hx(k), "v": str(r.range(1, 9))} for k in ins]
+    for _ in range(3):
+        ops.append({"op": r.choice(["inc", "dec", "set"]), "k": hx(r.choice(keys)), "v": str(gen_value(r))})
+    srt = sorted(keys)
+    # Get / queries: the ends, the middle (where the split falls), the keys inserted last
+    probe = sorted({b"", srt[0], srt[len(srt) // 2], srt[len(srt) // 2 + 1], srt[-1], ins[-1], ins[m - 1], ins[m]})
+    lo, hi = srt[len(srt) // 4], srt[3 * len(srt) // 4]
+    return {"m": m, "universe": [hx(k) for k in probe], "q": [hx(k) for k in probe[:6]], "ranges": [[hx(lo), hx(hi)]],
+            "ops": ops, "quiet": max(0, m - 3), "mode": "overflow_" + order}
+
+
 EX_KEYS = [b"", b"a", b"ab", b"b"]          # the empty key, a shared prefix, and a key above both
 
 
@@ -345,20 +380,22 @@ def parse_block(cur, c):
 
 
 def parse_obs(c, flat):
-    """-> (st_newtree, [block0, (st1, block1 | None), ...])"""
+    """-> (st_newtree, [(0, block0), (st1, block1 | None), ...]); block is None after a panicking mutation (st != 0, last
+    entry) and after each of the first c["quiet"] operations (st == 0, not observed)"""
     cur = Cur(flat)
     st0 = cur.get()
     if st0 != 0:
         return st0, []
     steps = [(0, parse_block(cur, c))]
-    for _ in c["ops"]:
+    quiet = c.get("quiet", 0)
+    for i, _ in enumerate(c["ops"]):
         if cur.done():
             break
         st = cur.get()
         if st != 0:
             steps.append((st, None))
             break
-        steps.append((0, parse_block(cur, c)))
+        steps.append((0, parse_block(cur, c) if i >= quiet else None))
     assert cur.done(), "trailing observations"
     return 0, steps
 
@@ -494,6 +531,9 @@ def oracle(c, flat):
         if st != 0:
             bad("Tree." + OPNAME[op["op"]], "panic", "the mutation panicked (%s)" % ST_NAMES.get(st), st)
             break
+        if b is None:                 # one of the first c["quiet"] operations: applied, not observed
+            prev_dump = None
+            continue
         items = sorted(D.items())
         total = sum(D.values())
 
@@ -619,7 +659,7 @@ def coq_case(c, flat):
     rg = "[" + "; ".join("(%s, %s)" % (kz(bytes.fromhex(a)), kz(bytes.fromhex(b))) for a, b in c["ranges"]) + "]"
     ops = "[" + "; ".join(coq_op(o) for o in c["ops"]) + "]"
     exp = "[" + ";".join(zlit(x) for x in flat) + "]"      # the full observation list (case_ok_full) or its digest (case_ok)
-    return "mkCase %d%%nat %s %s %s %s %s" % (c["m"], uni, q, rg, ops, exp)
+    return "mkCase %d%%nat %d%%nat %s %s %s %s %s" % (c["m"], c.get("quiet", 0), uni, q, rg, ops, exp)
 
 
 COQ_HEADER = ("From Coq Require Import ZArith List. Import ListNotations.\n"
@@ -637,7 +677,7 @@ def coq_items(pairs, tag, per_file, full=False):
 
 
 def canon(c):
-    return json.dumps({k: c[k] for k in ("m", "universe", "q", "ranges", "ops")}, sort_keys=True)
+    return json.dumps(dict({k: c[k] for k in ("m", "universe", "q", "ranges", "ops")}, quiet=c.get("quiet", 0)), sort_keys=True)
 
 
 def _binary():
@@ -786,6 +826,10 @@ def correspond(tier, seed, model_ok):
     nops = 40 if tier == "quick" else 60
     cases = [gen_case(r.fork(i), tier, nops=nops) for i in range(n)]
     cases += [gen_merge_case(r.fork("merge%d" % i), tier, nops=nops) for i in range(n // 10)]
+    # large fan-outs (tree.m is a uint8): the first node overflow at m in {127, 128, 253, 254, 255}
+    for m in BIG_MS:
+        for j in range(1 if tier == "quick" else 6):
+            cases.append(gen_overflow_case(r.fork("big%d_%d" % (m, j)), m))
     # per-fan-out streams so that every m of MS is exercised with set-only and with removing histories on every run
     for m in MS:
         for j in range(4 if tier == "quick" else 40):
@@ -843,15 +887,15 @@ def correspond(tier, seed, model_ok):
             out.notes.append("selftest: oracle flags a perturbed Get and a perturbed total; case_ok rejects a perturbed / permuted expectation: ok")
     out.rule = ("cases = histories of %d ops (set/inc/dec, 40%% of histories also remove) over 4-40 byte-string keys (alphabet {00,61,62,ff}, length <= 3, "
                 "shared prefixes, always the empty key, nil and empty slices), fan-out from %s, insertion orders monotone/reverse/outside-in/inside-out/random, "
-                "removal runs of consecutive keys; after NewTree and after every op: Get of every key of the universe, SplitAcc / SubsetAccumulation / PrefixSum "
+                "removal runs of consecutive keys; plus one overflow-forcing insertion of m+2..m+6 keys for each m in %s (observed from the overflow on); after NewTree and after every op: Get of every key of the universe, SplitAcc / SubsetAccumulation / PrefixSum "
                 "over all (pairs of) 3-6 query keys incl. nil ends, TotalAccumulatedValue, full forward+reverse and two ranged iterations, raw store dump; "
                 "plus, exhaustively, every Set/Remove sequence of 3 (quick) / 5 with model, 6 oracle-only (thorough) operations over 4 keys for m in {2,3}; "
-                "non-trivial = the history ended without a panicking mutation and built at least 3 levels (some node split); distinct = distinct case JSON" % (nops, MS))
+                "non-trivial = the history ended without a panicking mutation and built at least 3 levels (some node split); distinct = distinct case JSON" % (nops, MS, BIG_MS))
     out.samples = [{"m": c["m"], "mode": c["mode"], "universe": c["universe"][:8], "q": c["q"], "ops": c["ops"][:6]} for c in cases[:3]]
     kinds, ms, modes = {}, {}, {}
     for c in cases:
         ms[str(c["m"])] = ms.get(str(c["m"]), 0) + 1
-        modes[c["mode"]] = modes.get(c["mode"], 0) + 1
+        modes[c["mode"].split("_")[0]] = modes.get(c["mode"].split("_")[0], 0) + 1
         for o in c["ops"]:
             kinds[o["op"]] = kinds.get(o["op"], 0) + 1
     out.distribution = {"op_kinds": kinds, "fan_out_hist": ms, "insertion_order_hist": modes,
@@ -881,6 +925,10 @@ def search(tier, seed, out):
         fm = r.choice(sorted(ms)) if (ms and i % 2 == 0) else None
         cases.append(gen_case(r.fork(i), "thorough", nops=50, force_m=fm, with_rm=(i % 3 == 0)))
     cases += [gen_merge_case(r.fork("merge%d" % i), "thorough", nops=50) for i in range(300)]
+    # every fan-out a uint8 can hold, with an insertion that forces the first node overflow (cheap: only the tail is observed)
+    for m in range(2, 256):
+        for order in ("mono", "rand"):
+            cases.append(gen_overflow_case(r.fork("sweep%d%s" % (m, order)), m, order=order, extra=3))
     run_cases(cases, False, o2, "s")
     for v in o2.oracle_violations:
         if not common.match_finding(findings, v.get("rec", {})):
